@@ -137,6 +137,12 @@ func NewPool(kt string, code uint, variant string) *Pool {
 	createPatches := d0
 	createDelta := sidetree.DeltaOK
 	switch variant {
+	case "alias":
+		// the created document also carries an alias and a foreign member: a recover (patches applied to an EMPTY document) leaves
+		// nothing of them
+		createPatches = append(append([]interface{}{}, d0...),
+			map[string]interface{}{"action": "add-also-known-as", "uris": []interface{}{"https://alias.example/created"}},
+			JSONPatch(JOp("add", "/note", "created")))
 	case "invalid":
 		createPatches, createDelta = invalidPatch, sidetree.DeltaInvalid
 	case "applyfails":
@@ -234,6 +240,12 @@ func NewPool(kt string, code uint, variant string) *Pool {
 	upd("U01~v", "u0", c("u1"), invalidPatch, nil, setDelta(sidetree.DeltaInvalid), "legit", "")
 	// two defects at once: an unusable delta AND anchored outside the signed window - ignored like any update with an unusable delta
 	// (the out-of-window rule "consumes its commitment" is for updates whose delta is usable)
+	// an update that adds an alias and a foreign member: a later recover (whose replace patch can only carry keys and services)
+	// leaves nothing of them
+	upd("U01a", "u0", c("u1"), []interface{}{
+		map[string]interface{}{"action": "add-also-known-as", "uris": []interface{}{"https://alias.example/a"}},
+		JSONPatch(JOp("add", "/note", "kept?")),
+	}, nil, nil, "legit", "")
 	upd("U01~vw", "u0", c("u1"), invalidPatch, late, setDelta(sidetree.DeltaInvalid), "legit", "")
 	upd("U01~hw", "u0", c("u1"), svc("u01hw"), func(s *OpSpec) { hashMismatch(s); late(s) }, setDelta(sidetree.DeltaHashMismatch), "legit", "")
 	upd("U10", "u1", c("u0"), svc("u10"), nil, nil, "legit", "")
